@@ -250,8 +250,10 @@ func (rl *Shell) historyCompletion(forward, filterLine, substring bool) {
 		}
 
 		if substring {
-			rl.completer.GenerateWith(completer)
+			// Enter the search mode first: generated before it, a history
+			// with a single entry has that entry accepted in the line at once.
 			rl.completer.IsearchStart(rl.History.Name(), true, true)
+			rl.completer.GenerateWith(completer)
 		} else {
 			rl.startMenuComplete(completer)
 			rl.completer.AutocompleteForce()
